@@ -10,7 +10,7 @@ while len(cases) < N:
     d = pc.gen_doc(rng, good=True)
     try: t = fp.parse(d)
     except Exception: continue
-    lvl = rng.choice([0,1,2,3]); w = rng.choice([None, 20, 30, 40, 79, 1000]); ex = rng.choice([None,-1,0,1,2,5]); prefix=rng.choice(["","  ","# "])
+    lvl = rng.choice([0,1,2,3]); w = rng.choice([None, 25, 30, 40, 79, 1000]); ex = rng.choice([None,-1,0,1,2,5]); prefix=rng.choice(["","  ","# "])
     try:
         o = ["ok", t.as_str(prefix=prefix, expert_level=ex, attributes_level=lvl, print_width=w)]
     except Exception as e:
